@@ -501,6 +501,24 @@ func GenRichDecls(r *core.Rand, v *Vocab, o RichOpts) (D, map[string]int) {
 		obj[first], obj[second] = mk(true), mk(false)
 		g.Stats["lenient_strict_pair_of_identical_calls"]++
 	}
+	// an array over a union of paths (the engine yields a union operand by operand)
+	if len(v.Single) >= 2 && r.Chance(1, 5) {
+		p := r.Perm(len(v.Single))
+		parts := []string{v.Single[p[0]], v.Single[p[1]]}
+		if len(v.Multi) > 0 && r.Bool() {
+			parts = append(parts, v.Multi[r.Intn(len(v.Multi))])
+		}
+		ok := true
+		for _, x := range parts {
+			if strings.HasPrefix(x, "@") || strings.Contains(x, "/@") {
+				ok = false // attribute operands: left to the xpath check (C11)
+			}
+		}
+		if ok {
+			obj["union"] = D{"array": []interface{}{D{"xpath": strings.Join(parts, " | ")}}}
+			g.Stats["array_over_a_union_of_paths"]++
+		}
+	}
 	// a function of constants only, gated by its own xpath (matches for some records, not for others)
 	if r.Chance(1, 3) {
 		gate := g.pickPath(v, r.Bool())
